@@ -160,6 +160,13 @@ func (r *rewriter) callExpr(ce *ast.CallExpr) {
 			ce.Args = append([]ast.Expr{r.site("fs." + se.Sel.Name)}, ce.Args...)
 			r.fsSites++
 			return
+		case id.Name == "time" && se.Sel.Name == "AfterFunc" && len(ce.Args) == 2:
+			// the goroutine a timer starts gets a name of its own (parent, site, ordinal),
+			// like one started by a go statement, and parks at birth
+			ce.Fun = &ast.SelectorExpr{X: ast.NewIdent("verifsim"), Sel: ast.NewIdent("AfterFunc")}
+			ce.Args = append([]ast.Expr{r.site("afterfunc")}, ce.Args...)
+			r.used = true
+			return
 		case id.Name == "http" && se.Sel.Name == "ListenAndServe":
 			ce.Fun = &ast.SelectorExpr{X: ast.NewIdent("verifsim"), Sel: ast.NewIdent("ListenAndServe")}
 			r.used = true
